@@ -61,6 +61,40 @@ func RunOnce(body Body, prefix []int, fine bool) *Exec {
 	return x
 }
 
+// RunFree executes body with its threads as ordinary, free-running goroutines
+// (no scheduler, no hand-offs).  It exists for the separate race-detector pass:
+// under the cooperative scheduler every hand-off is a happens-before edge, so
+// only a free-running run lets `-race` see unsynchronised accesses.
+func RunFree(body Body) *Exec {
+	s := New()
+	s.free = true
+	finish := body(s)
+	start := make(chan struct{})
+	done := make(chan int, len(s.threads))
+	for i, t := range s.threads {
+		i, t := i, t
+		go func() {
+			defer func() {
+				if r := recover(); r != nil {
+					t.panicV = r
+				}
+				done <- i
+			}()
+			<-start
+			t.fn()
+		}()
+	}
+	close(start)
+	for range s.threads {
+		<-done
+	}
+	x := &Exec{Panics: s.Panics()}
+	if finish != nil {
+		finish(x)
+	}
+	return x
+}
+
 // Explorer is a stateless depth-first explorer with preemption bounding.
 type Explorer struct {
 	Body  Body
